@@ -391,3 +391,10 @@ def idiv(a, b):
         a, b = coerce_pair(a, b)
         return a / b
     return a // b
+
+
+def same_list(a, b):
+    """the two lists are equal as values (array-level equality in the symbolic reading: gives congruence)"""
+    if hasattr(a, "arr") and hasattr(b, "arr"):
+        return z3.And(a.arr == b.arr, eq(a.length, b.length))
+    return list(a) == list(b)
